@@ -72,7 +72,11 @@ def make_ctx():
 
     from mako import runtime as _rt  # (callers have run core.setup_repo())
 
+    def boomf(s):
+        boom(Boom, "filter")
+
     return {
+        "boomf": boomf,  # a filter that raises
         "pysc": _rt.supports_caller(_pysc),
         "cs": "S", "cn": 3, "cx0": "X0", "cx1": "X1", "cl": ["p", "q", "r"], "ce": [], "cd": {"k": "v"}, "ct": (("a", 1), ("b", 2)),
         "gen": gen, "rec": rec, "boom": boom, "showlog": showlog, "Boom": Boom, "Boom2": Boom2,
@@ -81,7 +85,7 @@ def make_ctx():
     }
 
 
-FILTER_NAMES = ["fa", "fb", "up"]
+FILTER_NAMES = ["fa", "fb", "up", "boomf"]
 
 
 def ref_filters(ctx):
